@@ -69,7 +69,7 @@ def plan(tier):
     return {"cases": nsweep + extra, "shards": 8 if tier == "quick" else 14, "min_nontrivial": 1000,
             "timeout": 600 if tier == "quick" else 2400,
             "require": {"steps_compared": 200000, "histories_with_true_cycle": 200, "histories_with_owner_change_while_waiting": 200,
-                        "true_cycle_steps": 1000, "reported_cycles_validated": 1000, "watchdog_deadlock_kills": 100, "blocked_results": 20000}}
+                        "true_cycle_steps": 1000, "reported_cycles_validated": 1000, "watchdog_deadlock_kills": 100, "blocked_results": 20000, "repeated_deadlock_histories": 300}}
 
 
 def find_cycle(edges):
@@ -115,6 +115,13 @@ def run_case(ctx, n):
             prefix = [("acquire", a, ra), ("acquire", b, rb), ("acquire", c, rc), ("acquire", a, rb), ("acquire", b, rc), ("acquire", c, ra)]
         w2 = [3 if x[0] == "acquire" else 8 if x[0] == "watchdog" else 1 for x in alpha]
         seq = prefix + rng.choices(alpha, weights=w2, k=rng.randint(1, 6))
+        if rng.random() < 0.35:
+            # the same deadlock again after the watchdog handled it: the victim (whoever it was) is restarted under the same id,
+            # possibly after a manual abort of the other one, and the crossed acquisitions are repeated (long-lived watchdog)
+            again = [("watchdog",), ("start", a), ("start", b)] + ([("abort", a), ("start", a)] if rng.random() < 0.3 else []) + \
+                    [("release", a, ra), ("release", b, rb), ("acquire", a, ra), ("acquire", b, rb), ("acquire", a, rb), ("acquire", b, ra), ("watchdog",)]
+            seq = prefix + again + ([("watchdog",)] if rng.random() < 0.3 else [])
+            ctx.count("repeated_deadlock_histories")
     drive(ctx, n, nops, nres, prios, pre, seq, rng.choice(["priority", "priority", "oldest"]))
 
 
